@@ -245,7 +245,7 @@ func runC09(ctx *report.Ctx) {
 		nChildren := 3
 		for ch := 0; ch < nChildren; ch++ {
 			// a fresh child process recomputes the baseline digest of every case of this shard
-			cmd := exec.Command(self, "C09", ctx.Tier, "--worker", fmt.Sprintf("%d/%d", ctx.ShardIndex, ctx.ShardCount))
+			cmd := exec.Command(self, "C09", ctx.EffectiveTier(), "--worker", fmt.Sprintf("%d/%d", ctx.ShardIndex, ctx.ShardCount))
 			cmd.Env = append(os.Environ(), "VERIF_C09_CHILD=1")
 			var out bytes.Buffer
 			cmd.Stdout = &out
